@@ -77,9 +77,14 @@ func (b Bloom) Test(test *big.Int) bool {
 }
 
 func (b Bloom) TestBytes(test []byte) bool {
-	return b.Test(new(big.Int).SetBytes(test))
-
+	// test the bytes as given: going through a big.Int strips leading zero
+	// bytes, which hashes to different bloom bits than the ones Add/LogsBloom set
+	return BloomLookup(b, bloomRawItem(test))
 }
+
+type bloomRawItem []byte
+
+func (r bloomRawItem) Bytes() []byte { return r }
 
 // MarshalText encodes b as a hex string with 0x prefix.
 func (b Bloom) MarshalText() ([]byte, error) {
